@@ -107,7 +107,25 @@ def render_manifest(g, builddir=None, style=None):
     return text
 
 def graph(steps, pools=(), defaults=()):
-    return {"steps": list(steps), "pools": [list(p) for p in pools], "defaults": list(defaults)}
+    return {"steps": list(steps), "pools": [list(p) for p in pools], "defaults": list(defaults),
+            "spell": []}
+
+SPELLINGS = [lambda p: "./" + p, lambda p: "zq/../" + p, lambda p: "./zq/.././" + p, lambda p: ".//" + p]
+
+def add_spell(g, spelling, canonical):
+    """Records that `spelling` was used for the file `canonical` somewhere in the scenario."""
+    if spelling != canonical and [spelling, canonical] not in g.setdefault("spell", []):
+        g["spell"].append([spelling, canonical])
+
+def spell_paths(g, rnd, prob=0.25):
+    """Spells some input and output paths of the manifest text non-canonically."""
+    for s in g["steps"]:
+        sp = s.setdefault("spell", {})
+        for f in s["outs"] + s["ins"] + s["oo"] + s["val"]:
+            if rnd.random() < prob and f not in sp:
+                sp[f] = rnd.choice(SPELLINGS)(f)
+                add_spell(g, sp[f], f)
+    return g
 
 def manifest_op(g, name="build.ninja", text=None, extra=(), style=None, builddir=None):
     if text is None:
